@@ -126,6 +126,9 @@ def _accept_args_ok(f, cfg, tn, call, stored_value, out):
 
 # ----------------------------------------------------------------------------------------------- C08.b
 SIGNS = (-1, 0, 1)
+# which other measures decide a tie in the chosen criterion (read from block_has_been_optimized and the option help: gas <-> size, and
+# both for -length); a candidate that ties and is worse in one of them is not an improvement
+TIE_BREAKERS = {"size": ("gas",), "gas": ("size",), "length": ("gas", "size")}
 
 
 def _premise_only_compared_with_zero(fnode, names, out, fname, allow_pairwise=False):
@@ -217,6 +220,10 @@ def rule_b(ctx, out):
             elif not got and sv0 > 0:
                 out.bad(f"block_has_been_optimized:{criterion}:rejects-better", f"criterion '{criterion}': a strictly cheaper candidate is rejected "
                         f"(savings original - optimized: {sv})", where(g))
+            elif got and sv0 == 0 and any(sv[k] < 0 for k in TIE_BREAKERS[criterion]):
+                out.bad(f"block_has_been_optimized:{criterion}:accepts-tie-worse-in-a-tie-breaker", f"criterion '{criterion}': a candidate equal in the criterion "
+                        f"and worse in {[k for k in TIE_BREAKERS[criterion] if sv[k] < 0][0]} is accepted (savings original - optimized: {sv}): the emitted block "
+                        f"differs from its input without improving on it", where(g))
             elif got and sv0 == 0 and all(v <= 0 for k, v in sv.items() if k != criterion):
                 out.bad(f"block_has_been_optimized:{criterion}:accepts-tie-without-gain", f"criterion '{criterion}': candidate equal in the "
                         f"criterion and better in nothing is accepted (savings {sv})", where(g))
